@@ -255,7 +255,18 @@ fn bulk_at<const N: usize, const K: usize>() {
     }
     check!(same(&s, &m), "bulk insertion either inserts everything (first supplied on top) or leaves the contents exactly as they were");
 }
+/// sizes that do not even add up in a usize: an exact-size iterator of usize::MAX (lazily produced) values onto a
+/// non-empty stack with the default (unbounded) maximum is an Overflow error, not a panic, and nothing is consumed
+fn bulk_huge() {
+    let mut s: Stack<i64> = Stack::default();
+    let v = any_i64();
+    let _ = s.push(v);
+    let r = s.push_many((0..usize::MAX).map(|i| i as i64));
+    check!(matches!(r, Err(StackError::Overflow { .. })), "a bulk insertion whose size does not add up in a usize is an overflow");
+    check!(s.size() == 1 && s.top().ok() == Some(&v), "bulk insertion either inserts everything (first supplied on top) or leaves the contents exactly as they were");
+}
 pub fn c04_bulk() {
+    bulk_huge();
     bulk_at::<0, 0>();
     bulk_at::<0, 2>();
     bulk_at::<1, 1>();
